@@ -386,6 +386,85 @@ Definition list_is_modelled (c : list_case) : bool :=
 Definition chk_rsplit (c : pystr * option (pystr * pystr)) : bool :=
   option_eqb (fun a b => str_eqb (fst a) (fst b) && str_eqb (snd a) (snd b)) (rsplit1 colon (fst c)) (snd c).
 
+(* ---- where a handler's keys come from ----
+   CookieHandler.__init__ either takes key material the deployment supplies (sign_key / enc_key, a key file, a
+   crypt_config with key or password AND salt) or lets the library generate it: `keys: {"key_defs": [...]}` without
+   a key file (init_key_jar), crypt_config = default_crypt_config(), a crypt_config that names only the class or
+   leaves key / password / salt out (init_encrypter's fallbacks: os.urandom, Fernet.generate_key).  A generated key
+   is a DRAW from the process's random source: `sup d` is the key material of the d-th draw; constructing a handler
+   consumes one draw per generated key, and so does every other library call that builds an encrypter (Server
+   construction, token handlers, the session manager) in between.  A key derived from a given password and a
+   generated salt (or the reverse) counts as one generated key. *)
+Inductive ksrc := KGiven (k : nat) | KGen.
+Record hspec := mk_hspec { s_sk : option ksrc; s_ek : option ksrc; s_ck : option ksrc }.
+(* one step of a process's history: a cookie handler is built | something else draws m times *)
+Inductive bstep := BHandler (s : hspec) | BOther (m : nat).
+
+Section Build.
+  Variable sup : nat -> nat.
+  Definition take (s : option ksrc) (n : nat) : option nat * nat :=
+    match s with
+    | None => (None, n)
+    | Some (KGiven k) => (Some k, n)
+    | Some KGen => (Some (sup n), S n)
+    end.
+  (* the handler built when n draws have been made, and the number of draws made afterwards *)
+  Definition construct (s : hspec) (n : nat) : handler * nat :=
+    let '(sk, n1) := take (s_sk s) n in
+    let '(ek, n2) := take (s_ek s) n1 in
+    let '(ck, n3) := take (s_ck s) n2 in
+    (mk_handler sk ek ck, n3).
+  Fixpoint build_all (l : list bstep) (n : nat) : list handler :=
+    match l with
+    | [] => []
+    | BHandler s :: r => let '(h, n') := construct s n in h :: build_all r n'
+    | BOther m :: r => build_all r (n + m)
+    end.
+End Build.
+
+(* correspondence 1 (freshness): the key material observed on the real handlers of a history.  The driver numbers
+   raw key BYTES (equal bytes <=> equal number; harness-given keys carry the number the specification names;
+   numbers below gen_base).  The model builds the same history from a supply of pairwise different draws; both
+   must show the same shape and the same equalities between all key slots of all handlers, and given keys must
+   be the keys in use. *)
+Definition gen_base : nat := 1000%nat.
+Definition sup0 (d : nat) : nat := (gen_base + d)%nat.
+Definition hkeys (h : handler) : list (option nat) := [h_sk h; h_ek h; h_ck h].
+Definition okey_eqb (a b : option nat) : bool :=
+  match a, b with Some x, Some y => Nat.eqb x y | _, _ => false end.
+Definition same_shape (a b : option nat) : bool :=
+  match a, b with None, None | Some _, Some _ => true | _, _ => false end.
+Definition given_kept (p : option nat * option nat) : bool :=
+  match p with
+  | (Some m, Some o) => if (m <? gen_base)%nat then Nat.eqb m o else true
+  | _ => true
+  end.
+Definition fresh_case : Type := list bstep * list (option nat * option nat * option nat).
+Definition fresh_model (c : fresh_case) : list (option nat) := flat_map hkeys (build_all sup0 (fst c) 0).
+Definition chk_fresh (c : fresh_case) : bool :=
+  let m := fresh_model c in
+  let o := flat_map (fun x => let '(a, b, d) := x in [a; b; d]) (snd c) in
+  Nat.eqb (length m) (length o) &&
+  let z := combine m o in
+  forallb (fun p => same_shape (fst p) (snd p)) z && forallb given_kept z &&
+  forallb (fun p => forallb (fun q => Bool.eqb (okey_eqb (fst p) (fst q)) (okey_eqb (snd p) (snd q))) z) z.
+
+(* correspondence 2 (who accepts whose cookie): handler i of the history makes a cookie, handler j parses it.
+   observed: Some content | None (refused in any way).  No blob table: the cookie is the model's own term. *)
+Definition cross_case : Type := list bstep * nat * nat * (pystr * pystr * pystr) * option (pystr * pystr * pystr).
+Definition no_handler : handler := mk_handler None None None.
+Definition cross_model (c : cross_case) : res (pystr * pystr * pystr) :=
+  let '(steps, i, j, (v, typ, ts), _) := c in
+  let hs := build_all sup0 steps 0 in
+  parse_cookie (fun _ => []) (nth j hs no_handler) (make_cookie (nth i hs no_handler) v typ ts 0 [105; 118]).
+Definition chk_cross (c : cross_case) : bool :=
+  let '(_, _, _, _, obs) := c in
+  match cross_model c, obs with
+  | Ok x, Some y => content_eqb x y
+  | Err _, None => true
+  | _, _ => false
+  end.
+
 (* ---- idpyoidc.client.cookie (the relying party's helper), signed-only variant:
      make_cookie:  load | timestamp | hexdigest(HMAC-SHA1(seed, load ‖ timestamp))     — NO framing of the MAC input
      parse_cookie: three parts -> safe_str_cmp(sig, cookie_signature(seed, cleartext, timestamp)) (exact text
